@@ -8,7 +8,6 @@ import (
 	"fmt"
 	"os"
 	"path/filepath"
-	"runtime/pprof"
 	"sync"
 	"time"
 
@@ -138,15 +137,6 @@ func WorkerMain() {
 		fmt.Fprintln(os.Stderr, "c08net worker:", err)
 		os.Exit(3)
 	}
-	if pf := os.Getenv("VERIF_CPUPROF"); pf != "" {
-		f, _ := os.Create(pf)
-		pprof.StartCPUProfile(f)
-		go func() {
-			time.Sleep(12 * time.Second)
-			pprof.StopCPUProfile()
-			f.Close()
-		}()
-	}
 	cfg := p2pConf()
 	var node *Node
 	var nerr error
@@ -203,7 +193,6 @@ func WorkerMain() {
 			out.Flush()
 		}
 		if err != nil {
-			pprof.StopCPUProfile()
 			os.Exit(0)
 		}
 	}
